@@ -439,4 +439,51 @@ def run(ctx):
                     r.ok("%s: %s sets the new section's indentation" % (fi.short, norm(c)))
                 else:
                     r.fail(fi, c, norm(c), "%s changes the indentation without a 'with' scope: it is never restored" % fi.short)
+
+    # ---------------------------------------------------------------- R7
+    r = ctx.rule("C11-R7", "ORDER", "indentation is decided on the text as written, before decoration: in the writing method the per-line prefixing "
+                 "('non-empty line' = non-empty before any escape code) precedes the call of the formatter", reference=1)
+    n_w = 0
+    for c in [out_cls] + [k for k in p.subclasses(out_cls, strict=True)]:
+        for name, m in sorted(c.methods.items()):
+            cfg = ctx.cfg(m)
+            ind_nodes = [n for n in cfg.nodes if n.kind == "stmt" and n.ast is not None and any(
+                isinstance(x, ast.BinOp) and isinstance(x.op, ast.Mult) and any(is_self_attr(y, "_indent") for y in (x.left, x.right)) for x in ast.walk(n.ast))]
+            fmt_nodes = [n for n in cfg.nodes if n.kind in ("stmt", "return") and n.ast is not None and any(
+                isinstance(x, ast.Call) and isinstance(x.func, ast.Attribute) and x.func.attr in ("format", "remove_format") and isinstance(x.func.value, ast.Name) and x.func.value.id == "self"
+                for x in walk_no_nested(n.ast))]
+            if not ind_nodes or not fmt_nodes:
+                continue
+            n_w += 1
+            late = [i for i in ind_nodes if any(i.id in cfg.reach_strict(f.id) for f in fmt_nodes)]
+            if late:
+                r.fail(m, late[0].ast, "indentation after formatting", "%s prefixes the lines after the formatter ran: a line that holds only an escape sequence (a style that starts or ends at a "
+                       "line break) counts as non-empty and is indented, so the decorated output with its escapes stripped differs from the plain output" % m.short)
+            else:
+                r.ok("%s: lines prefixed before %s" % (m.short, "format/remove_format"))
+    if n_w == 0:
+        r.fail(out_cls.methods["write"], out_cls.methods["write"].node, "no indenting writer", "no writing method applies the indentation any more")
+
+    # ---------------------------------------------------------------- R8
+    r = ctx.rule("C11-R8", "SIBLING", "the error-stream twin of every IO writing method does what the standard one does: both delegate to the same "
+                 "method of their output with the same argument shapes (a text ending in a newline gets the same treatment on both streams)", reference=4)
+    def shape(m):
+        out = []
+        prm = q.param_names(m)
+        for c in q.calls(m):
+            if isinstance(c.func, ast.Attribute) and is_self_attr(c.func.value):
+                out.append((c.func.attr, tuple(norm(a) for a in c.args), tuple(sorted((k.arg or "**", norm(k.value)) for k in c.keywords))))
+        return out
+    for name, m in sorted(io_cls.methods.items()):
+        if not name.startswith("write"):
+            continue
+        twin = io_cls.methods.get("error" + name[len("write"):])
+        if twin is None:
+            continue
+        a, b = shape(m), shape(twin)
+        if a == b and a:
+            r.ok("IO.%s / IO.%s: %s" % (name, twin.name, a[0][0]))
+        else:
+            r.fail(twin, twin.node, "IO.%s / IO.%s delegate differently" % (name, twin.name),
+                   "IO.%s and IO.%s no longer delegate the same way (%s vs %s): the same text is written differently to the two streams" % (name, twin.name, a, b))
     return ctx.results
